@@ -8,6 +8,7 @@ decisions is the schedule, recorded in ``world.trace``.
 from __future__ import annotations
 
 import asyncio
+import hashlib
 import random
 import urllib.parse
 from dataclasses import dataclass, field
@@ -61,13 +62,21 @@ class SimNet:
         real = [m for m in ripe if m.jump_us is None]
         if real:
             ripe = real      # clock events wait until every request ripe at this instant has been served
-        ripe.sort(key=lambda m: m.mid)
+        # canonical order of the candidates: it must not depend on the order in which concurrent tasks of one
+        # actor happened to issue their requests (the validator gathers over sets of objects, whose iteration
+        # order follows memory addresses)
+        ripe.sort(key=lambda m: (m.actor.id, m.method, m.url, hashlib.blake2b(m.body or b"", digest_size=8).digest(),
+                                 m.is_dup, m.mid))
         if len(ripe) > 1:
             self.sim.world.probe("sched.choice_points")
             msg = ripe[self.sim.sched_rng.randrange(len(ripe))]
         else:
             msg = ripe[0]
         self.pending.remove(msg)
+        if msg.jump_us is None and not msg.is_dup:
+            # faults are planned by delivery index (canonical), not by the order in which requests were issued
+            msg.actor.deliver_index += 1
+            msg.fault = msg.actor.fault_plan.get(msg.actor.deliver_index)
         if msg.jump_us is not None:
             self.sim.clock_jump(msg.actor.id, msg.jump_us)
             fut = msg.future
@@ -148,11 +157,10 @@ class SimNet:
                       timeout_s: float | None = 30.0, use_jar: bool = True) -> Response:
         loop = self.sim.loop
         actor.msg_index += 1
-        fault = actor.fault_plan.get(actor.msg_index)
         fut = loop.create_future()
         msg = Message(
             mid=self._mid(), actor=actor, method=method, url=url, headers=dict(headers or {}),
-            body=body, deliver_at=simclock.CLOCK.us + actor.draw_latency(), future=fut, fault=fault,
+            body=body, deliver_at=simclock.CLOCK.us + actor.request_latency(method, url), future=fut, fault=None,
             use_jar=use_jar)
         self.pending.append(msg)
         if timeout_s is None:
@@ -210,6 +218,18 @@ class Actor:
         for f in spec.get("faults", []) or []:
             self.fault_plan[int(f["msg"])] = f
         self.stopped = False
+        self.deliver_index = 0
+        self._url_count: dict[tuple[str, str], int] = {}
+
+    def request_latency(self, method: str, url: str) -> int:
+        """Upstream latency of a request: a function of the actor's seed, the request and how often this very
+        request was issued before - not of the order in which concurrent tasks issued their requests."""
+        if self.lat_jitter <= 0:
+            return self.lat_min
+        n = self._url_count.get((method, url), 0)
+        self._url_count[(method, url)] = n + 1
+        h = hashlib.blake2b(f"{self.spec.get('prng', 0)}|{method}|{url}|{n}".encode(), digest_size=8).digest()
+        return self.lat_min + int.from_bytes(h, "big") % (self.lat_jitter + 1)
 
     def draw_latency(self) -> int:
         if self.lat_jitter <= 0:
